@@ -44,6 +44,10 @@ func (c19) Components() map[string]string {
 // foreign: I = [subject, kind]   hostile: I = [subject, kind]   list: I = [subject]   reopen
 func (c19) Gen(r *rand.Rand, tier string, idx int) *core.Plan {
 	p := &core.Plan{World: map[string]int64{}}
+	if r.IntN(10) == 0 {
+		c19GenConcurrent(r, p)
+		return p
+	}
 	p.World["disk"] = int64(r.IntN(2))
 	p.World["remote"] = int64(r.IntN(3) / 2) // a third of the runs present the store as a remote registry (two endpoints, paged referrers API)
 	p.World["page"] = int64(r.IntN(4))
@@ -89,6 +93,9 @@ const legacyArtifactManifest = "application/vnd.cncf.oras.artifact.manifest.v1+j
 
 func (l c19) Exec(env *core.Env) *core.Result {
 	p := env.Plan
+	if p.W("concurrent") == 1 {
+		return c19Concurrent(env)
+	}
 	res := &core.Result{}
 	ctx := context.Background()
 	layout := filepath.Join(env.Dir, "layout")
